@@ -35,4 +35,4 @@ def run(ctx):
         "explanation": "Static conformance decided by TLC as an evaluator of XrlBindings over facts lexed from the current tree: %s. Constants published under a C name must equal the header value (integers exactly, reals at the precision written; aliases resolved inside the binding): Fortran module, Pascal constants, IDL files, Java finals; the C++ header and the SWIG interface must include xraylib.h; the Java physical constants must be written to the data file from the C macros. The six user-facing macro families must be complete in Fortran, Pascal, IDL, Java and Cython. Prototypes: Cython pxd declarations and Fortran BIND(C) interfaces against the C prototypes under a type map. Every function declared in a public header must be exported by a shared library built from the tree with hidden default visibility. All version strings must equal xraylib.h. Not covered: Pascal iface/impl prototypes, SWIG typemaps, Lua/Perl/PHP/Ruby generated wrappers (no hand-written declaration sets lexed for them)." % json.dumps(counts),
         "distinct_nontrivial": ncmp, "exhaustive": True,
         "rule": "one comparison per constant, per family member and binding, per prototype, per exported header function, per version file",
-    }, ["bindings are not executed (no Fortran, Pascal, Cython, IDL toolchains in this image): textual conformance only"])
+    }, ["bindings other than Java are not executed (no Fortran, Pascal, Cython, IDL toolchains in this image): textual conformance only; the Java constants are also read at run time"])
